@@ -261,9 +261,36 @@ def is_trusted(dname, name=""):
     return d.startswith(TRUSTED_PREFIXES) or name.startswith(("llvm.", "__cxa", "_Unwind", "__dynamic_cast", "__gxx", "__clang"))
 
 
+def _fnptr_inner(dname):
+    """'R (*NAME(PARAMS))(FPARAMS) [const]' (a function returning a function pointer) -> 'NAME(PARAMS)'"""
+    depth = 0
+    for i, ch in enumerate(dname):
+        if ch == "<":
+            depth += 1
+        elif ch == ">":
+            depth -= 1
+        elif ch == "(" and depth == 0:
+            if dname.startswith("(*", i):
+                j = i + 2
+                d2 = 1
+                k = j
+                while k < len(dname) and d2:
+                    if dname[k] == "(":
+                        d2 += 1
+                    elif dname[k] == ")":
+                        d2 -= 1
+                    k += 1
+                return dname[j:k - 1]
+            return None
+    return None
+
+
 def strip_ret(dname):
     """demangled template functions carry a leading return type: 'int foo<int>(int)'. Return the part
     starting at the qualified name (best effort: last top-level space before the parameter list)."""
+    inner = _fnptr_inner(dname)
+    if inner is not None:
+        return inner
     bn = base_name(dname)
     depth = 0
     cut = 0
@@ -279,3 +306,8 @@ def strip_ret(dname):
     if rest.startswith(("new", "delete")) and bn[:cut].rstrip().endswith("operator"):
         return dname
     return dname[cut:]
+
+
+def is_lib_name(dname):
+    """the function itself (not merely one of its parameter types) is defined in namespace yorel::yomm2"""
+    return strip_ret(dname).startswith("yorel::yomm2::")
